@@ -8,6 +8,7 @@ theorem tokInv_stepM (s s' : St) (v : Variant) (h : TokInv s) (hs : stepM s v = 
   all_goals (first
     | (tok_simple s, h; done)
     | (refine tok_mAdd _ ?_; tok_simple s, h; done)
+    | (refine tok_mAddF _ ?_; tok_simple s, h; done)
     | (refine tok_mAfterItem _ ?_; tok_simple s, h; done)
     | (refine tok_mRespawnCheck _ ?_; tok_simple s, h; done)
     | (refine tok_mDropRef _ ?_; tok_simple s, h; done)
